@@ -47,6 +47,7 @@ func LoadCase(path string) (*Case, error) {
 
 // Begin resets the per-run recordings.
 func Begin(c *Case) {
+	cleanTemp()
 	Cur = c
 	Failed = nil
 	Trace = nil
@@ -289,7 +290,17 @@ func TempDir() string {
 	if err != nil {
 		panic(err)
 	}
+	tempDirs = append(tempDirs, d)
 	return d
+}
+
+var tempDirs []string
+
+func cleanTemp() {
+	for _, d := range tempDirs {
+		os.RemoveAll(d)
+	}
+	tempDirs = nil
 }
 
 func FSExists(path string) bool {
@@ -310,3 +321,8 @@ func IfFloat(c bool, a, b float64) float64 {
 	}
 	return b
 }
+
+// FreezeClock makes every later time.Now() of the code under analysis return the same instant
+// (symbolically). Natively the clock cannot be stopped; harnesses that freeze it keep their
+// time-dependent inputs far from the decision boundaries.
+func FreezeClock() {}
